@@ -712,6 +712,18 @@ def guarded_by_call(f, bb, callee_suffix):
     return False
 
 
+def _guards_match(row, ordinal, now):
+    """the site's current guard set covers one of the guard sets recorded for this key at review time."""
+    now = set(now)
+    return any(set(g) <= now for g in row["guards"])
+
+
+def _guards_lost(row, now):
+    now = set(now)
+    best = min(row["guards"], key=lambda g: len(set(g) - now))
+    return sorted(set(best) - now)
+
+
 def caller_guards_ok(P, f, guards):
     """residue rows may state how each caller establishes the callee's precondition:
     {caller path: callee suffix whose result the caller must test before the call}. Unknown callers fail."""
@@ -723,6 +735,84 @@ def caller_guards_ok(P, f, guards):
         elif not guarded_by_call(g, bi, want):
             problems.append("`%s` no longer tests `%s` on the way to the call (%s)" % (g.path, want, g.loc(g.blocks[bi]["term"].get("fn_span"))))
     return problems
+
+
+# ------------------------------------------------------------------ guard fingerprints of reviewed sites
+def _canon(f, op, depth=3):
+    """name-free description of an operand: structure, fields, callee names and constants, no local names."""
+    r = f.root_of(op, through_named=True)
+    if r[0] == "const":
+        c = r[1]
+        if "v" in c:
+            return str(c["v"])
+        if "s" in c:
+            return repr(c["s"])[:24]
+        return "const"
+    if r[0] == "place":
+        fl = [e.get("name") or ("@" + e["downcast"] if "downcast" in e else "") for e in r[1]["p"] if isinstance(e, dict)]
+        fl = [x for x in fl if x]
+        return "$" + "".join("." + x for x in fl)
+    if r[0] == "call":
+        t = r[2]
+        n = (M.callee_name(t) or "indirect").split("::")[-1]
+        if depth > 0 and t["args"]:
+            return "%s(%s)" % (n, _canon(f, t["args"][0], depth - 1))
+        return n + "()"
+    if r[0] == "rv":
+        rv = r[3]["rv"]
+        if rv["k"] == "binop" and depth > 0:
+            return "%s(%s,%s)" % (rv["op"].replace("WithOverflow", ""), _canon(f, rv["a"], depth - 1), _canon(f, rv["b"], depth - 1))
+        if rv["k"] == "unop" and depth > 0:
+            return "%s(%s)" % (rv["op"], _canon(f, rv["a"], depth - 1))
+        if rv["k"] == "cast" and depth > 0:
+            return _canon(f, rv["a"], depth - 1)
+        if rv["k"] == "discr":
+            return "discr"
+        return rv["k"]
+    return "?"
+
+
+def guard_fingerprint(f, bb):
+    """the conditions under which control can reach block bb: every switch edge that bb is only reachable through,
+    described without local names (so renaming does not change it, but a changed operator/constant/callee does)."""
+    if not hasattr(f, "_fp_cache"):
+        f._fp_cache = {}
+    if bb in f._fp_cache:
+        return f._fp_cache[bb]
+    out = set()
+    for sw in D.bool_switches(f):
+        if not f.dominates(sw["bb"], bb) or sw["bb"] == bb:
+            continue
+        for edge in ("true", "false"):
+            tgt = sw[edge]
+            if tgt is not None and bb in D.edge_dominated(f, sw["bb"], tgt):
+                r = sw["root"]
+                if r[0] == "rv":
+                    d = _canon(f, {"copy": {"l": r[3]["place"]["l"], "p": []}}) if False else None
+                    rv = r[3]["rv"]
+                    if rv["k"] == "binop":
+                        d = "%s(%s,%s)" % (rv["op"], _canon(f, rv["a"]), _canon(f, rv["b"]))
+                    else:
+                        d = rv["k"]
+                elif r[0] == "call":
+                    t = r[2]
+                    d = "%s(%s)" % ((M.callee_name(t) or "indirect").split("::")[-1], ",".join(_canon(f, a, 2) for a in t["args"][:2]))
+                elif r[0] == "place":
+                    d = _canon(f, {"copy": r[1]})
+                else:
+                    d = r[0]
+                out.add("%s=%s" % (d, "T" if edge == "true" else "F"))
+    for sw in D.enum_switches(f):
+        if not f.dominates(sw["bb"], bb) or sw["bb"] == bb:
+            continue
+        for tgt, names in sw["by_target"].items():
+            if bb in D.edge_dominated(f, sw["bb"], tgt):
+                out.add("%s is %s" % (D.short_ty(sw["ety"]), "|".join(sorted(names))))
+        o = sw["otherwise"]
+        if o not in sw["by_target"] and sw["otherwise_variants"] and bb in D.edge_dominated(f, sw["bb"], o):
+            out.add("%s is %s" % (D.short_ty(sw["ety"]), "|".join(sorted(sw["otherwise_variants"]))))
+    f._fp_cache[bb] = sorted(out)
+    return f._fp_cache[bb]
 
 
 def requires_ok(f, req):
@@ -767,6 +857,12 @@ def run(ctx, res, layers, floor_fns, floor_sites, extra_roots=(), label="PANIC-I
                 res.bad(label, k + " # guard-missing",
                         "reviewed site `%s` relies on %s, which this function no longer calls (%s)" % (k, missing, s.loc()),
                         s.loc(), {"row": row})
+            elif row.get("guards") is not None and not _guards_match(row, seen[k], guard_fingerprint(f, s.bb)):
+                lost = _guards_lost(row, guard_fingerprint(f, s.bb))
+                res.bad(label, k + " # guard-changed",
+                        "reviewed site `%s`: a condition it was reviewed under no longer guards it (%s); the safety argument "
+                        "('%s') must be re-examined" % (k, "; ".join(lost)[:200], row.get("reason", "")[:120]),
+                        s.loc(), {"row": row, "now": guard_fingerprint(f, s.bb)})
             elif cg:
                 res.bad(label, k + " # caller-guard",
                         "reviewed site `%s` relies on its callers establishing a precondition: %s" % (k, "; ".join(cg)),
